@@ -31,6 +31,11 @@ class _Collect(TypeCase):
 
 
 def check(ctx: Ctx) -> None:
+    _check(ctx)
+    _extra(ctx)
+
+
+def _check(ctx: Ctx) -> None:
     p = ctx.p
     fi = p.func(FN)
     ctx.analysed(fi)
@@ -247,3 +252,8 @@ def rank2(forms: list[tuple[int, int]]) -> int:
             if forms[i][0] * forms[j][1] - forms[i][1] * forms[j][0] != 0:
                 return 2
     return 1
+
+
+def _extra(ctx):
+    from ..engines.structure import interleave_rule
+    interleave_rule(ctx)
